@@ -156,6 +156,7 @@ Proof.
     apply aset_keys_incl in Ho. destruct Ho as [->|Ho]; [|auto]. apply Hb. eapply alookup_in; eauto.
   - split; [exact Hnd|]. cbn. intros o Ho. apply Hb. eapply aremove_keys_incl; eauto.
   - exact HI.
+  - unfold add_fault. destruct (alookup x (heap s)) as [ob|]; [|exact HI]. destruct (amem _ _); exact HI.
 Qed.
 
 Lemma init_Inv : Inv init.
@@ -234,6 +235,8 @@ Proof.
   - destruct (alookup x (heap s)) as [ob|]; reflexivity.
   - reflexivity.
   - reflexivity.
+  - unfold add_fault. destruct (alookup x (heap s)) as [ob|]; [|reflexivity].
+    destruct (amem (okey ob) (fs s)) eqn:E; cbn; rewrite E; reflexivity.
 Qed.
 
 Lemma replay_outs ops : forall s, Inv s -> replay (fs s) (outs s ops) = Some (fs (exec s ops)).
@@ -390,6 +393,8 @@ Proof.
   - assert (Hji : i0 <> i) by (intros ->; rewrite Nat.eqb_refl in Hk; discriminate).
     eapply replica_intro; [|exact H|exact S|exact K].
     rewrite cache_of_upd. destruct (Nat.eqb_spec i i0); [congruence|exact C].
+  - unfold add_fault in *. destruct (alookup x (heap s)) as [obx|]; [|exact HR].
+    destruct (amem (okey obx) (fs s)); exact HR.
 Qed.
 
 Lemma exec_keeps ops : forall s i k o, replica s i k o -> amem k (fs s) = true -> undisturbed i k o s ops ->
@@ -460,6 +465,23 @@ Proof.
   split; [apply alookup_aset_eq|].
   eapply replica_intro; [|cbn; apply alookup_aset_eq|reflexivity|reflexivity].
   rewrite cache_of_upd, Nat.eqb_refl. apply alookup_aset_eq.
+Qed.
+
+(* an add() refused by the file system has no effect at all: the state - documents, every live object
+   with its source, every instance's cache - is the one before the call, and the answer is the
+   KeyError of a duplicate or the OSError, never a success *)
+Lemma add_fault_spec s i x p ob : alookup x (heap s) = Some ob ->
+  fst (step s (AddFault i x p)) = s /\
+  snd (step s (AddFault i x p)) = (if amem (okey ob) (fs s) then ODup (okey ob) else OFault (okey ob)).
+Proof.
+  intros H. cbn. unfold add_fault. rewrite H. destruct (amem (okey ob) (fs s)); split; reflexivity.
+Qed.
+
+(* ... hence whatever follows runs exactly as if the refused add() had not been issued *)
+Lemma add_fault_transparent s i x p ops : exec s (AddFault i x p :: ops) = exec s ops /\
+  outs s (AddFault i x p :: ops) = snd (step s (AddFault i x p)) :: outs s ops.
+Proof.
+  cbn. unfold add_fault. destruct (alookup x (heap s)) as [ob|]; [destruct (amem _ _)|]; split; reflexivity.
 Qed.
 
 Lemma discard_spec s i x ob : alookup x (heap s) = Some ob ->
